@@ -163,3 +163,24 @@ def regular_language_obligations(tier, seed):
 
 regular_language_obligations.props = ['C13']
 CLOSED = [regular_language_obligations]
+
+_MS, _ME = 'env_matches("rx0")[0].start()', 'env_matches("rx0")[0].end()'
+_OWN = (f'({_MS} == 0 or not (source[{_MS} - 1].isdigit() or source[{_MS} - 1].isalpha())) and '
+        f'({_ME} == len(source) or not (source[{_ME}].isdigit() or source[{_ME}].isalpha()))')
+
+CONTRACTS += [
+    Contract('c13.ip_extractor.complete', SX + 'BaseIpExtractor.extract', ['C13'], setup=_seq_setup,
+             params=dict(self=Rec(SX + 'BaseIpExtractor', {}), source=Str()),
+             regex_env={'rx0': {'count': 1, 'exact': True}},
+             loops={2: LoopSpec(invariant=['len(matched) == len(source)', f'j <= {_ME} - {_MS}',
+                                           f'forall(lambda k: matched[k] == ({_MS} <= k and k < {_MS} + j), 0, len(source))']),
+                    3: LoopSpec(invariant=SWEEP_INV + [
+                        f'forall(lambda k: matched[k] == ({_MS} <= k and k < {_ME}), 0, len(source))',
+                        'len(result) <= 1', f'implies(i < {_ME}, len(result) == 0)', f'implies(last + 1 < i, last + 1 == {_MS})',
+                        f'implies(i >= {_ME} and {_ME} > {_MS} and ({_OWN}), len(result) == 1 and result[0].start == {_MS} and '
+                        f'result[0].length == {_ME} - {_MS})'], types={'result': ERLIST})},
+             ensures=[('an-address-standing-as-its-own-token-is-reported-with-its-exact-span',
+                       f'implies(len(env_matches("rx0")) == 1, implies({_ME} > {_MS} and ({_OWN}), len(result) == 1 and '
+                       f'result[0].start == {_MS} and result[0].length == {_ME} - {_MS}))')],
+             note='exactly one regex match (environment value); own token: neither neighbour is a digit or a letter'),
+]
